@@ -42,7 +42,7 @@ def determinism(n_seeds: int, only: List[str], workers: int) -> int:
                 env = dict(os.environ)
                 env.update({"VERIF_SEED": str(1000 + k), "PYTHONHASHSEED": hs, "VERIF_WORKERS": w, "VERIF_ENVS": envs_, "VERIF_RUNS": "3",
                             "JSIM_DIGEST_ONLY": "1", "JSIM_OUT": "/tmp/jsim-selftest"})
-                p = subprocess.run(["/verif/check", "run", "--property", pid, "--tier", "quick"], capture_output=True, text=True, env=env, timeout=1800)
+                p = subprocess.run([os.path.join(os.environ.get("JSIM_ROOT", "/verif"), "check"), "run", "--property", pid, "--tier", "quick"], capture_output=True, text=True, env=env, timeout=1800)
                 line = [ln for ln in p.stdout.splitlines() if ln.startswith("DIGEST ")]
                 outs.append(line[0].split()[1] if line else f"missing(rc={p.returncode}): {p.stderr[-300:]}")
             total += 1
